@@ -123,24 +123,14 @@ fn rows_str(rows: &[Vec<Vec<u8>>]) -> String {
         .join(";")
 }
 
-/// Run a batch of arrays through format | read for one delimiter. Returns one answer per case,
-/// or `None` if the sentinel structure of either stream is broken (caller falls back to singles).
-fn run_batch(d: u8, cases: &[Vec<Vec<u8>>]) -> Option<Vec<String>> {
+/// Stage 2 for one delimiter: feed the formatted text `o1` (cases separated by sentinel records)
+/// to `--input-dsv d` and split both streams at the sentinels. `None` if the sentinel structure of
+/// either stream is broken (caller falls back to single runs).
+fn read_back(d: u8, n_cases: usize, o1: &[u8]) -> Option<Vec<String>> {
     let dchar = (d as char).to_string();
-    let mut input = String::new();
-    for c in cases {
-        input.push_str(&json_array(c));
-        input.push('\n');
-        input.push_str(&format!("[\"{SENT}\"]\n"));
-    }
-    let prog = program(d);
-    let o1 = match run_cli(&["-r", &prog], input.as_bytes()) {
+    let o2 = match run_cli(&["--input-dsv", &dchar, "-c", "map(explode)"], o1) {
         Some(o) => o,
-        None => return Some(cases.iter().map(|_| "ERR".to_string()).collect()),
-    };
-    let o2 = match run_cli(&["--input-dsv", &dchar, "-c", "map(explode)"], &o1) {
-        Some(o) => o,
-        None => return Some(cases.iter().map(|_| "ERR".to_string()).collect()),
+        None => return Some((0..n_cases).map(|_| "ERR".to_string()).collect()),
     };
     // split the formatted text at sentinel records
     let sent_line = format!("\"{SENT}\"\n").into_bytes();
@@ -157,7 +147,7 @@ fn run_batch(d: u8, cases: &[Vec<Vec<u8>>]) -> Option<Vec<String>> {
             i += 1;
         }
     }
-    if !cur.is_empty() || texts.len() != cases.len() {
+    if !cur.is_empty() || texts.len() != n_cases {
         return None;
     }
     // split the rows read back at sentinel rows
@@ -172,10 +162,64 @@ fn run_batch(d: u8, cases: &[Vec<Vec<u8>>]) -> Option<Vec<String>> {
             g.push(row);
         }
     }
-    if !g.is_empty() || groups.len() != cases.len() {
+    if !g.is_empty() || groups.len() != n_cases {
         return None;
     }
     Some(texts.iter().zip(groups.iter()).map(|(t, g)| format!("{}|{}", hex_bytes(t), rows_str(g))).collect())
+}
+
+/// Run a batch of arrays through format | read for one delimiter (two processes).
+fn run_batch(d: u8, cases: &[Vec<Vec<u8>>]) -> Option<Vec<String>> {
+    let mut input = String::new();
+    for c in cases {
+        input.push_str(&json_array(c));
+        input.push('\n');
+        input.push_str(&format!("[\"{SENT}\"]\n"));
+    }
+    let prog = program(d);
+    let o1 = match run_cli(&["-r", &prog], input.as_bytes()) {
+        Some(o) => o,
+        None => return Some(cases.iter().map(|_| "ERR".to_string()).collect()),
+    };
+    read_back(d, cases.len(), &o1)
+}
+
+const GROUP: &str = "@@GROUP@@";
+
+/// Format the cases of *all* delimiter groups in one process: every input is `[d, array]`, the
+/// program dispatches on `d` to `@csv` / `@dsv("d")`; a `null` input prints the group separator.
+/// Returns the formatted text per group, or `None` if the stream does not split as expected.
+fn format_all(groups: &[(u8, Vec<Vec<Vec<u8>>>)]) -> Option<Vec<Vec<u8>>> {
+    let mut prog = String::from("if . == null then \"@@GROUP@@\" else (.[0] as $d | .[1] | ");
+    let mut input = String::new();
+    for (k, (d, cases)) in groups.iter().enumerate() {
+        let dj = json_string(&[*d]);
+        prog.push_str(&format!("{} $d == {dj} then {} ", if k == 0 { "if" } else { "elif" }, program(*d)));
+        for c in cases {
+            input.push_str(&format!("[{dj},{}]\n[{dj},[\"{SENT}\"]]\n", json_array(c)));
+        }
+        input.push_str("null\n");
+    }
+    prog.push_str("else error(\"no such delimiter\") end) end");
+    let o = run_cli(&["-r", &prog], input.as_bytes())?;
+    let sep = format!("{GROUP}\n").into_bytes();
+    let mut out: Vec<Vec<u8>> = Vec::new();
+    let mut cur: Vec<u8> = Vec::new();
+    let mut i = 0;
+    while i < o.len() {
+        let at_line_start = i == 0 || o[i - 1] == b'\n';
+        if at_line_start && o[i..].starts_with(&sep) {
+            out.push(std::mem::take(&mut cur));
+            i += sep.len();
+        } else {
+            cur.push(o[i]);
+            i += 1;
+        }
+    }
+    if !cur.is_empty() || out.len() != groups.len() {
+        return None;
+    }
+    Some(out)
 }
 
 fn run_single(d: u8, xs: &[Vec<u8>]) -> String {
@@ -266,7 +310,7 @@ pub fn gen(tier: Tier, r: &mut Rng, emit: &mut dyn FnMut(String)) {
     let mut delims: Vec<u8> = (0x20u8..0x7f).filter(|&c| c != b'"').collect();
     if quick {
         let mut keep: Vec<u8> = vec![b',', b';', b'|', b' ', b'\\', b'\'', b'a', b'0'];
-        while keep.len() < 20 {
+        while keep.len() < 16 {
             let c = *r.pick(&delims);
             if !keep.contains(&c) {
                 keep.push(c);
@@ -274,7 +318,7 @@ pub fn gen(tier: Tier, r: &mut Rng, emit: &mut dyn FnMut(String)) {
         }
         delims = keep;
     }
-    let per_delim = if quick { 30 } else { 400 };
+    let per_delim = if quick { 36 } else { 400 };
     let mut all: Vec<(u8, Vec<Vec<Vec<u8>>>)> = Vec::new();
     for &d in &delims {
         let n = if d == b',' { per_delim * 6 } else { per_delim };
@@ -308,8 +352,13 @@ pub fn gen(tier: Tier, r: &mut Rng, emit: &mut dyn FnMut(String)) {
 
     let mut cache = HashMap::new();
     let mut order = Vec::new();
+    // one formatting process for all admissible delimiters, then one reader per delimiter
+    let adm: Vec<(u8, Vec<Vec<Vec<u8>>>)> =
+        all.iter().filter(|(d, _)| !matches!(*d, b'"' | b'\n' | b'\r')).cloned().collect();
+    let formatted = format_all(&adm);
     for (d, cases) in &all {
-        let answers = match run_batch(*d, cases) {
+        let pre = formatted.as_ref().and_then(|f| adm.iter().position(|(x, _)| x == d).map(|k| &f[k]));
+        let answers = match pre.and_then(|o1| read_back(*d, cases.len(), o1)).or_else(|| run_batch(*d, cases)) {
             Some(a) => a,
             None => cases.iter().map(|c| run_single(*d, c)).collect(),
         };
